@@ -25,6 +25,10 @@ pub const PROP_NAMES: [&str; 6] = ["q0", "q1", "q2", "q3", "q4", "q5"];
 pub enum Shape {
     Layered { layers: u64, width: u64, deg: u64, n_init: u64, oob_mod: u64 },
     BinTree { spin: u64 },
+    /// two lanes (initial states `0` and `1 << 56`), one action: count up. Lane 0 never ends; model code panics in lane 1
+    /// after `fuse` steps. With the `lane` chooser the worker whose first trace has the base seed walks lane 0, every
+    /// other worker walks lane 1: ONE worker panics while another is in the middle of a trace that never ends.
+    Chain { fuse: u64, spin: u64 },
 }
 
 /// when is a state "hit" by a property: never, or pseudo-randomly 1 in `m` from depth `min_layer` on
@@ -65,6 +69,7 @@ impl BigModel {
         match self.spec.shape {
             Shape::Layered { width, .. } => s / width,
             Shape::BinTree { .. } => s >> 56,
+            Shape::Chain { .. } => s & ((1u64 << 56) - 1),
         }
     }
     pub fn hit(&self, i: usize, s: u64) -> bool {
@@ -81,6 +86,7 @@ impl BigModel {
         match self.spec.shape {
             Shape::Layered { n_init, .. } => (0..n_init).collect(),
             Shape::BinTree { .. } => vec![0],
+            Shape::Chain { .. } => vec![0, 1u64 << 56],
         }
     }
     pub fn n_actions(&self, s: u64) -> u8 {
@@ -89,6 +95,7 @@ impl BigModel {
                 if self.layer_of(s) + 1 >= layers { 0 } else { deg as u8 + 2 }
             }
             Shape::BinTree { .. } => if (s >> 56) >= 56 { 0 } else { 2 },
+            Shape::Chain { .. } => 1,
         }
     }
     pub fn next(&self, s: u64, a: u8) -> Option<u64> {
@@ -116,6 +123,14 @@ impl BigModel {
                 let bits = s & ((1u64 << 56) - 1);
                 Some(((len + 1) << 56) | (bits << 1) | a as u64)
             }
+            Shape::Chain { spin, .. } => {
+                let mut x = s;
+                for i in 0..spin {
+                    x = std::hint::black_box(mix(x, i, 1));
+                }
+                std::hint::black_box(x);
+                Some(s + 1)
+            }
         }
     }
     pub fn in_boundary(&self, s: u64) -> bool {
@@ -124,6 +139,7 @@ impl BigModel {
                 oob_mod == 0 || s < width || mix(self.spec.seed ^ 0x77, s, 3) % oob_mod != 0
             }
             Shape::BinTree { .. } => true,
+            Shape::Chain { .. } => true,
         }
     }
 }
@@ -145,6 +161,11 @@ impl Model for BigModel {
     fn actions(&self, s: &u64, actions: &mut Vec<u8>) {
         if self.spec.panic_at == Some(*s) {
             panic!("model code panics at the seeded state");
+        }
+        if let Shape::Chain { fuse, .. } = self.spec.shape {
+            if (*s >> 56) == 1 && (*s & ((1u64 << 56) - 1)) >= fuse {
+                panic!("model code panics in the short lane");
+            }
         }
         if let Some(t) = &self.spec.panic_thread {
             if self.layer_of(*s) >= 1 && std::thread::current().name() == Some(t.as_str()) {
@@ -341,6 +362,21 @@ pub fn lcg_next(st: &mut u64) -> usize {
     *st = st.wrapping_mul(6364136223846793005).wrapping_add(1442695040888963407);
     (*st >> 33) as usize
 }
+/// the worker whose trace has seed `base` (worker 0's first trace) takes initial state 0, everybody else initial state 1
+#[derive(Clone)]
+pub struct LaneChooser(pub u64);
+impl Chooser<BigModel> for LaneChooser {
+    type State = u64;
+    fn new_state(&self, seed: u64) -> u64 {
+        seed
+    }
+    fn choose_initial_state(&self, st: &mut u64, init: &[u64]) -> usize {
+        if *st == self.0 { 0 } else { 1 % init.len() }
+    }
+    fn choose_action(&self, _: &mut u64, _: &u64, _: &[u8]) -> usize {
+        0
+    }
+}
 #[derive(Clone)]
 pub struct ScriptChooser(pub Vec<usize>);
 impl Chooser<BigModel> for ScriptChooser {
@@ -489,6 +525,7 @@ pub fn run_child(cfg: &RunCfg) -> RunOut {
         _ => match chooser.as_str() {
             "lcg" => fin(&b.spawn_simulation(seed, LcgChooser).join()),
             "script" => fin(&b.spawn_simulation(seed, ScriptChooser(script)).join()),
+            "lane" => fin(&b.spawn_simulation(seed, LaneChooser(seed)).join()),
             _ => fin(&b.spawn_simulation(seed, stateright::UniformChooser).join()),
         },
     }))
